@@ -385,6 +385,7 @@ func judgeC06(c *fw.Case, o *splitObs) {
 		if !bytes.Equal(o.parts[0], want) {
 			c.Failf("content-altered/"+o.entry+"/"+kind.String()+"/single", "single part %s differs from the reference encoding %s\n%s", hx(o.parts[0]), hx(want), o.ctx())
 		}
+		libraryDecoderAgrees(c, o, kind, o.parts[0])
 		c.Cover("c06/" + o.entry + "/" + kind.String() + "/single")
 		return
 	}
@@ -398,7 +399,30 @@ func judgeC06(c *fw.Case, o *splitObs) {
 			c.Failf("content-altered/"+o.entry+"/"+kind.String()+"/multi", "concatenated payloads (%d units) differ from the reference encoding (%d units)\n%s\nparts=%s", len(got), len(S), o.ctx(), partsHex(o.parts))
 		}
 	}
+	libraryDecoderAgrees(c, o, kind, bytes.Join(pl, nil))
 	c.Cover(fmt.Sprintf("c06/%s/%s/multi/parts%d", o.entry, kind, bucket(len(o.parts))))
+}
+
+// libraryDecoderAgrees: for Latin-1 and GB18030 the reference encoding is the library codec's own (declared
+// exception), so an encoder that disagrees with its decoder would go unnoticed; decode the payload with the
+// library's decoder of the reported coding and compare with the text.
+func libraryDecoderAgrees(c *fw.Case, o *splitObs, kind codingKind, payload []byte) {
+	var dec []byte
+	var err error
+	switch kind {
+	case kLatin1:
+		dec, err = datacoding.Latin1(payload).Decode()
+	case kGB:
+		if ref.GBCarveOut(o.text) {
+			return
+		}
+		dec, err = datacoding.GB18030(payload).Decode()
+	default:
+		return
+	}
+	if err != nil || string(dec) != o.text {
+		c.Failf("content-altered/"+o.entry+"/"+kind.String()+"/decoder-disagrees", "the payload, decoded under the reported coding, is not the original text (err=%v): %q\n%s", err, trunc200(string(dec)), o.ctx())
+	}
 }
 
 func (o *splitObs) supportedReq() (codingKind, bool) {
